@@ -362,6 +362,9 @@ impl CodegenContext {
     }
 
     fn next_pass(&mut self) {
+        #[cfg(feature = "verif")]
+        verif::new_pass();
+
         self.pass_idx += 1;
         self.next_macro_scope_id = 0;
         self.macro_depth_exceeded = false;
@@ -556,6 +559,9 @@ impl CodegenContext {
     }
 
     fn emit_token(&mut self, token: &Token) -> CoreResult<()> {
+        #[cfg(feature = "verif")]
+        verif::tick();
+
         match token {
             Token::Align { value, .. } => {
                 if let Some(pc) = self.try_current_target_pc() {
